@@ -199,6 +199,24 @@ var (
 	runeErrBytesLen = int64(len(runeErrBytes))
 )
 
+// fullRuneInBuffer reports whether the multi-byte sequence starting at cursor lies completely in the
+// filled part of the buffer. The filled part ends at the nul sentinel; the bytes behind it are stale.
+func fullRuneInBuffer(buf []byte, cursor int64) bool {
+	need := int64(2)
+	switch c := buf[cursor]; {
+	case c >= 0xF0:
+		need = 4
+	case c >= 0xE0:
+		need = 3
+	}
+	for i := int64(1); i < need; i++ {
+		if buf[cursor+i] == nul {
+			return false
+		}
+	}
+	return true
+}
+
 func stringBytes(s *Stream) ([]byte, error) {
 	_, cursor, p := s.stat()
 	cursor++ // skip double quote char
@@ -259,7 +277,7 @@ func stringBytes(s *Stream) ([]byte, error) {
 			fallthrough
 		default:
 			// multi bytes character
-			if !utf8.FullRune(s.buf[cursor : len(s.buf)-1]) {
+			if !fullRuneInBuffer(s.buf, cursor) {
 				s.cursor = cursor
 				if s.read() {
 					_, cursor, p = s.stat()
